@@ -7,6 +7,10 @@ CLAIMS = {
   text="Deductive proof that SessionTracker.DecodeSeqNum and EncodeSeqNum equal the fold of the per-update translation functions stepDec/stepEnc over the pending queue (unbounded queue length, all uint32 numbers), that the per-update translations are mutually inverse and yield zero exactly for the expunged / not-yet-announced message (lemmas for every well-formed update and count), and that the ghost folds terminate.",
   note="Mutex operations are no-ops (sequential reading under the lock). Queue-level composition of the per-update inverse lemmas, Poll and the fan-out in MailboxTracker.queueUpdate are not yet under contract.",
   design="§6 C07"),
+ "C19": dict(
+  text="Deductive proof that SearchCriteria.And yields the intersection field by field: for every size/date the combined Larger/Smaller/Since/Before/SentSince/SentBefore bound matches iff both operands' bounds match (unset = zero handled), every list field becomes old ++ other (length and element-wise, unbounded lengths), ModSeq is carried over / tightened; intersectSince/intersectBefore proved against the date matcher for all instants.",
+  note="time.Time modelled as an opaque instant with IsZero/Before/After as a strict total order (assumed stdlib contract); operands must not share list backing arrays (precondition noListAliasing). The server parser's key-order independence and message.search's use of the semantics are not yet under contract.",
+  design="§6 C19"),
  "C15": dict(
   text="Deductive proof (govc: weakest-precondition VCs over go/ssa of the real code, contracts in internal/imapnum/contracts_verif.go, discharged by z3/cvc5) that Range.Contains/Less/Merge equal their mathematical specification for all uint32 inputs incl. 2^32-1 and '*', that Set.search/Contains/Dynamic are correct on every canonical set (unbounded length), and that Range.append terminates and yields exactly the members in ascending order.",
   note="Trusted: go/ssa + govc translation, solvers. Slice parameters viewed at offset 0; signed int arithmetic mathematical where no overflow obligation is generated. insert/AddRange/Parse/String not yet under contract (listed in evidence as not covered).",
